@@ -2119,6 +2119,9 @@ fn main() {
             let mut pts = vec![CrashPoint { k: h.journal.len(), torn: Some(("inside-header", 100)) }];
             if torn_at == 2 {
                 pts.push(CrashPoint { k: n_writes, torn: None });
+                // exactly one full batch, and one file more (two batches, nothing torn)
+                pts.push(CrashPoint { k: 1000, torn: None });
+                pts.push(CrashPoint { k: 1001, torn: None });
                 pts.push(CrashPoint { k: h.journal.len(), torn: Some(("one-byte-short", 700)) });
             }
             for cp in &pts {
